@@ -20,7 +20,7 @@ Exit status 0 = held on everything explored; 1 = VIOLATION line printed.
 import json, os, re, shutil, subprocess, sys, tempfile, time, glob, hashlib
 from concurrent.futures import ThreadPoolExecutor
 
-ROOT = os.environ.get("VERIF_ROOT", "/verif")
+ROOT = os.environ.get("VERIF_ROOT") or os.path.dirname(os.path.dirname(os.path.abspath(__file__)))
 REPO = os.environ.get("VERIF_REPO", "/repo")
 COQ = os.path.join(ROOT, "coq")
 BIN = os.path.join(ROOT, "bin")
